@@ -309,6 +309,7 @@ pub fn cmd_e1(args: &Args) -> i32 {
         .set("variant_kinds", J::Obj(variant_kinds.into_iter().map(|(k, v)| (k, J::u(v))).collect()))
         .set("simulated_clock_reads", J::u(sim_rayon::clock::reads()))
         .set("simulated_affinity_reads", J::u(sim_rayon::sys::affinity_reads()))
+        .set("exact_predicate_calls", J::u(sim_rayon::sim::exact_predicate_calls()))
         .set("simulated_cpus", J::Obj(cpus_hist.into_iter().map(|(k, v)| (if k == 0 { "real".to_string() } else { format!("{:03}", k) }, J::u(v))).collect()))
         .set("wall_s", J::Num(wall))
         .set(
